@@ -45,7 +45,7 @@ CLASS_FLOORS = {"no_solution_game": 0.1, "dead>=2": 0.1}
 
 @st.composite
 def cases(draw, max_inner=10):
-    g = draw(games.stopping_games(min_inner=1, max_inner=max_inner, max_sinks=3))
+    g = draw(games.stopping_games(min_inner=1, max_inner=max_inner, max_sinks=3, zero_edges=True))
     route = draw(st.sampled_from(("prune", "prune", "no_prune", "batch")))
     return dict(game=g, route=route)
 
